@@ -273,8 +273,21 @@ def tables_wire(facts, decoded):
     return ";".join(parts)
 
 
-def bashrt_request(pg, script, lines):
-    """the model of the bash template on the tables of this very script. Returns the request line or None"""
+def parse_bashrt_part(part):
+    """one answer of the `bashrt` driver command: (candidates or None, [(command function id, arg1, arg2)] in call order)"""
+    cands, _, calls = part.partition("#")
+    cl = []
+    if calls and calls != "E":
+        for c in calls.split(","):
+            f = c.split("/")
+            cl.append((int(f[0]), core.unhexs(f[1]), core.unhexs(f[2])))
+    cs = None if cands == "N" else ([] if cands == "E" else sorted(set(core.unhexs(h) for h in cands.split(","))))
+    return cs, cl
+
+
+def bashrt_request(pg, script, lines, cmap=None):
+    """the model of the bash template on the tables of this very script. Returns the request line or None;
+    cmap (a dict) receives command function id -> probe number"""
     import re
     from . import tables
     try:
@@ -294,6 +307,8 @@ def bashrt_request(pg, script, lines):
         if not m:
             return None
         out = pg.outputs.get(int(m.group(1)), "")
+        if cmap is not None:
+            cmap[cid] = int(m.group(1))
         ls = out.split("\n")
         if ls and ls[-1] == "":
             ls.pop()
@@ -313,7 +328,8 @@ def run_both(pg, script, tree, lines, workdir):
     dwb = default_wordbreaks()
     cls = ";".join(",".join([core.hexs(dwb if wb is None else wb)] + [core.hexs(w) for w in ws] + [core.hexs(p)]) for wb, ws, p in lines)
     reqs = [f"complete bash {pg.out_table()} {cls} {tree}"]
-    br = bashrt_request(pg, script, lines)
+    cmap = {}
+    br = bashrt_request(pg, script, lines, cmap)
     if br is not None:
         reqs.append(br)
     answers = core.driver_batch(reqs, timeout=900)
@@ -322,9 +338,7 @@ def run_both(pg, script, tree, lines, workdir):
         return None
     model = None
     if br is not None and answers[1].startswith("ok "):
-        model = []
-        for part in answers[1][3:].split(" ; "):
-            model.append(None if part == "N" else ([] if part == "E" else sorted(set(core.unhexs(h) for h in part.split(",")))))
+        model = [parse_bashrt_part(part) for part in answers[1][3:].split(" ; ")]
         if len(model) != len(lines):
             model = None
     specs = []
@@ -353,7 +367,9 @@ def run_both(pg, script, tree, lines, workdir):
         return None
     for k, sp in enumerate(specs):
         if sp is not None:
-            sp["model"] = model[k] if model is not None else "absent"
+            sp["model"] = model[k][0] if model is not None else "absent"
+            # the calls the model of the template makes, as (probe number, arg1, arg2) in order
+            sp["model_calls"] = [(cmap.get(c, -1), a1, a2) for c, a1, a2 in model[k][1]] if model is not None else "absent"
     return list(zip(lines, bres, specs))
 
 
